@@ -95,6 +95,7 @@ def check(ctx: Ctx) -> None:
     _check_policy(ctx)
     _check_units(ctx)
     _check_inverse(ctx)
+    _check_kwargs_chain(ctx)
 
 
 def _check_policy(ctx: Ctx) -> None:
@@ -253,6 +254,60 @@ def _check_units(ctx: Ctx) -> None:
                                   'linear factor' % norm(v), init.path, n.lineno, operand='ant_gain')
 
 
+def _check_kwargs_chain(ctx: Ctx) -> None:
+    """C13.f: for every concrete model whose deterministic formula takes extra named arguments (e.g. the number of walls), each hop
+    of the public chain calc_path_loss -> calc_path_loss_dB -> _calc_deterministic_path_loss_dB forwards **kargs."""
+    M = ctx.model
+    ctx.rule('C13.f', 'extra model arguments reach the deterministic formula through every hop of the linear and dB API', floor=1)
+    base = M.cls('PathLossBase')
+    for c in M.subclasses(base):
+        det = c.methods.get('_calc_deterministic_path_loss_dB')
+        if det is None:
+            continue
+        extra = [p for p in det.params if p not in ('self', 'd')]
+        has_var = det.node.args.kwarg is not None
+        if not extra:
+            continue
+        hops = [('calc_path_loss', 'calc_path_loss_dB'), ('calc_path_loss_dB', 'calc_path_loss_dB'),
+                ('calc_path_loss_dB', '_calc_deterministic_path_loss_dB')]
+        chain = []
+        cur = M.lookup_method(c, 'calc_path_loss')
+        seen = set()
+        problems = []
+        todo = [M.lookup_method(c, 'calc_path_loss'), M.lookup_method(c, 'calc_path_loss_dB')]
+        # follow super() delegation of calc_path_loss_dB down to the base implementation
+        k = M.lookup_method(c, 'calc_path_loss_dB')
+        while k is not None and k.cls is not base:
+            nxt = M.lookup_method(c, 'calc_path_loss_dB', after=k.cls)
+            if nxt is None or nxt in todo:
+                break
+            todo.append(nxt)
+            k = nxt
+        for f in todo:
+            if f is None or id(f.node) in seen:
+                continue
+            seen.add(id(f.node))
+            if f.node.args.kwarg is None:
+                problems.append('%s does not accept **kargs' % f.qualname)
+                continue
+            kw = f.node.args.kwarg.arg
+            calls = [n for n in ast.walk(f.node) if isinstance(n, ast.Call) and isinstance(n.func, ast.Attribute)
+                     and n.func.attr in ('calc_path_loss_dB', '_calc_deterministic_path_loss_dB')]
+            for n in calls:
+                fwd = any(k_.arg is None and isinstance(k_.value, ast.Name) and k_.value.id == kw for k_ in n.keywords)
+                chain.append((f.qualname, n.func.attr, fwd))
+                if not fwd:
+                    problems.append('%s calls %s without **%s' % (f.qualname, n.func.attr, kw))
+        construct = '%s:%s' % (c.name, ','.join(extra))
+        ctx.instance('C13.f', construct)
+        ctx.obligation('C13.f', construct, not problems, {'extra_arguments': extra, 'hops': chain})
+        for pr in problems:
+            fq = pr.split(' ')[0]
+            ctx.violation('C13.f', fq, 'model %s takes %s in its deterministic formula but %s: calc_path_loss(d, %s=...) silently uses the '
+                          'default and disagrees with calc_path_loss_dB(d, %s=...)' % (c.name, extra, pr, extra[0], extra[0]),
+                          PL, 1, operand='kwargs:' + c.name)
+
+
 def _check_inverse(ctx: Ctx) -> None:
     M = ctx.model
     ctx.rule('C13.d', 'an offered inverse query is the algebraic inverse of the forward formula, or raises', floor=3)
@@ -328,6 +383,8 @@ MUTANTS = [
            [('replace', '(PL - self._C)', 'PL')], r'C13\.[ad]:PathLossGeneral\.which_distance_dB'),
     Mutant('revert-fix-metis-inverse-stub', PL, 'PathLossMetisPS7.which_distance_dB',
            [('regex', r'raise NotImplementedError\([^\n]*\)', 'pass')], r'C13\.d:PathLossMetisPS7\.which_distance_dB'),
+    Mutant('indoor-linear-api-drops-kwargs', PL, 'PathLossIndoorBase.calc_path_loss',
+           [('replace', 'self.calc_path_loss_dB(d, **kargs)', 'self.calc_path_loss_dB(d)')], r'C13\.f:PathLossIndoorBase\.calc_path_loss'),
     Mutant('benign-invert-policy-branches', PL, 'PathLossBase.calc_path_loss_dB',
            [('regex', r'if self\.handle_small_distances_bool is True:\n(.*?)\n        else:\n(.*?)\n    return PL',
              r'if not self.handle_small_distances_bool:\n\2\n        else:\n\1\n    return PL')], None, benign=True),
